@@ -748,6 +748,30 @@ func checkRoundTripLookups(sc *bw.Scenario, w *world, cl *closure, b *sourcebund
 			n++
 		}
 	}
+	// relative paths mean what they mean at the time of the call
+	if cwd, err := os.Getwd(); err == nil {
+		for _, e := range ents {
+			if !e.IsDir() {
+				continue
+			}
+			pdir := root + "/" + e.Name()
+			want, werr := b.SourceForLocalPath(pdir + "/main.tf")
+			if werr != nil || os.Chdir(pdir) != nil {
+				continue
+			}
+			got, err := b.SourceForLocalPath("main.tf")
+			if err != nil || got.String() != want.String() {
+				out.Violate(prop, "reverse-lookup", "relative-path", fmt.Sprintf("with the working directory inside package directory %s, the relative path main.tf translates to %v (%v); its absolute spelling translates to %s", e.Name(), got, err, want))
+			}
+			os.Chdir("/cwd")
+			if src, err := b.SourceForLocalPath(e.Name() + "/main.tf"); err == nil {
+				out.Violate(prop, "reverse-lookup", "outside-accepted", fmt.Sprintf("with the working directory /cwd, the relative path %s/main.tf (not in the bundle) translates to %s", e.Name(), src))
+			}
+			out.Probe("reverse-lookup-relative")
+			break
+		}
+		os.Chdir(cwd)
+	}
 	for _, p := range []string{root, root + "/terraform-sources.json", root + "/..", filepath.Dir(root) + "/SIBLING/main.tf", "/etc/shadow", root + "/no-such-dir/x"} {
 		if src, err := b.SourceForLocalPath(p); err == nil {
 			out.Violate(prop, "reverse-lookup", "outside-accepted", fmt.Sprintf("path %s does not lie in any package directory but translates to %s", p, src))
